@@ -17,7 +17,7 @@ DESIGN_REF = "DESIGN.md 5 C07"
 RULE = (
     "case = (edge kind, one of the 12 edge slots of an operation, what is done to the carrying face after the edge "
     "was attached: nothing / invert / shift 1..3 / reorient to corner 0..3 (a short history), duplicate definition by a "
-    "second operation: none / same direction / opposite direction, in both insertion orders, frame); assemble+write on the "
+    "second operation: none / same direction / opposite direction / a neighbour that shares the edge without defining it, in both insertion orders, frame); assemble+write on the "
     "real library, the edges section is read back and compared with the curve the user described (circle model for "
     "angle/origin arcs, polyline for spline/polyLine); every (kind, position) also on an operation that is inverted or mirrored "
     "as a whole after its edges were given. non-trivial = a direction-dependent or degenerate edge kind, or a duplicate"
@@ -50,7 +50,7 @@ def cases(tier, seed):
             if tier == "quick" and kind in ("project1", "origin") and fr != 0:
                 continue
             for slot in (0, 1, 3, 5, 7, 8, 11):
-                for dup in ("same", "opposite"):
+                for dup in ("same", "opposite", "neighbour"):
                     for order in (0, 1):
                         out.append({"frame": fr, "kind": kind, "slot": slot, "usage": "given", "dup": dup, "order": order})
         # the same Face object used as the top of one operation and the bottom of the next (stacking),
@@ -222,6 +222,10 @@ def build(case):
         if case["dup"] == "same":
             quad = [A, B, B + wdir, A + wdir]
             make2, _ = user_curve(kind, A, B, case["frame"])
+        elif case["dup"] == "neighbour":
+            # a second operation that shares the edge without defining it (the usual way: one definition per edge)
+            quad = [B, A, A + wdir, B + wdir]
+            make2 = lambda: None  # noqa: E731
         else:
             quad = [B, A, A + wdir, B + wdir]
             make2, _ = user_curve(kind, A, B, case["frame"], flip=True)
@@ -333,21 +337,17 @@ def run_case(case):
                     break
     # edge length used for grading
     if "length" in ref:
-        blk_pos = 0 if case["order"] == 0 else len(ops) - 1
-        if case["dup"] == "stack":
-            blk_pos = 0  # either block contains the edge
-        block = mesh.blocks[blk_pos]
-        wire = None
-        for c1, c2 in bm.EDGES:
-            w = block.wires[c1][c2]
-            if {w.vertices[0].index, w.vertices[1].index} == {va, vb}:
-                wire = w
-        if wire is None:
+        found = 0
+        for bi, block in enumerate(mesh.blocks):
+            for c1, c2 in bm.EDGES:
+                w = block.wires[c1][c2]
+                if {w.vertices[0].index, w.vertices[1].index} == {va, vb}:
+                    found += 1
+                    got_len = w.edge.length
+                    if not math.isclose(got_len, ref["length"], rel_tol=1e-5):
+                        bad("edge-length-for-grading", f"block {bi}: Edge.length {got_len:.6f}, user's curve {ref['length']:.6f}")
+        if not found:
             bad("wire-not-found", "")
-        else:
-            got_len = wire.edge.length
-            if not math.isclose(got_len, ref["length"], rel_tol=1e-5):
-                bad("edge-length-for-grading", f"Edge.length {got_len:.6f}, user's curve {ref['length']:.6f}")
     return {"violations": violations, "outcome": outcome + (":fwd" if forward else ":rev"), "nontrivial": kind in DIRECTED or case["dup"] != "none"}
 
 
